@@ -413,7 +413,10 @@ def main():
         law = dict(NeoHookean=lambda: H_.NeoHookean(dim, 2.5), MooneyRivlin=lambda: H_.MooneyRivlin(dim, 1.5, 0.75, 4.0), SaintVenantKirchhoff=lambda: H_.SaintVenantKirchhoff(dim, 3.0, 2.0, 0.0))[lawname]()
         s = Simulations.HyperElastic(mesh, law, relTol=1e-13, absTol=1e-12, incTol=1e-13, maxIter=40)
         s.rho = 1.5
-        s.Solver_Set_Hyperbolic_Algorithm(dt, algo=AlgoType.midpoint)
+        # the midpoint rule has no parameter: whatever Newmark / HHT parameters are passed along with it (a script switching from a damped
+        # Newmark run keeps them) are not part of the scheme
+        extra = {} if (saveEvery in (1, None) and lawname == "NeoHookean") else dict(beta=0.3025, gamma=0.6)
+        s.Solver_Set_Hyperbolic_Algorithm(dt, algo=AlgoType.midpoint, **extra)
         s.Solver_Set_Stress(stress, nPoints=npts) if stress == "quadrature" else s.Solver_Set_Stress(stress)
         X = mesh.coord
         v0 = np.zeros((mesh.Nn, dim))
@@ -441,7 +444,7 @@ def main():
             tol = 1e-8 if stress == "gonzalez" else 1e-6
             uRef = None
             for saveEvery in (1, rng.choice([2, 3, 5]), 0):
-                ident = dict(elemType=et, law=lawname, stress=stress, dt=dt)
+                ident = dict(elemType=et, law=lawname, stress=stress, dt=dt, passed_along_with_midpoint=("nothing" if (saveEvery in (1, None) and lawname == "NeoHookean") else "beta=0.3025, gamma=0.6"))
                 cadence = ""
                 if saveEvery != 1:
                     ident["saveEvery"] = saveEvery
